@@ -1,6 +1,6 @@
 """C08 — Objects, prototypes, functions and this (structural clauses)."""
 
-from ..rules import emitrules, objmodel, optargs, textparse
+from ..rules import emitrules, objmodel, optargs, textparse, operators
 
 
 def run(ctx, rep):
@@ -13,6 +13,7 @@ def run(ctx, rep):
     textparse.rule_canonical_index_keys(ctx, rep, "C08-R10")
     objmodel.rule_accessor_receiver(ctx, rep, "C08-R11")
     emitrules.report(ctx, rep, {"O9": "C08-R6"}, {"C08-R6": "call/apply/bind and callback re-entry return to their own caller (sound host re-entry)"})
+    operators.rule_receiver_not_truth_tested(ctx, rep, "C08-R15")
     rep.undecided += [
         "agreement with a reference object model over histories of operations (runtime differential)",
         "lexical `this` of arrow functions (no structural necessary condition independent of the implementation strategy)",
